@@ -1402,6 +1402,250 @@ def nodeset_pass(run: Run, cases: list, groups: int) -> None:
                             run.disagree(SpecOracleDisagreement({'op': 'nodeset', 'expr': fe, 'texts': strs}, lx, None, want,
                                                                 what='spec-vs-libxml2', site='EPV/Spec/FOStrings.lean'))
 
+_schema = {}
+
+
+def typed_schema():
+    """a small schema (xmlschema, if installed) giving simple types to the elements of the typed test document"""
+    if 'proxy' not in _schema:
+        try:
+            import xmlschema
+            xsd = xmlschema.XMLSchema(
+                '<xs:schema xmlns:xs="http://www.w3.org/2001/XMLSchema"><xs:element name="r"><xs:complexType><xs:sequence>'
+                '<xs:element name="d" type="xs:decimal" maxOccurs="unbounded"/><xs:element name="i" type="xs:integer"/>'
+                '<xs:element name="b" type="xs:boolean"/><xs:element name="s" type="xs:string"/>'
+                '<xs:element name="f" type="xs:double"/><xs:element name="u" type="xs:anyURI"/></xs:sequence>'
+                '<xs:attribute name="n" type="xs:decimal"/></xs:complexType></xs:element></xs:schema>')
+            _schema['proxy'] = xsd.xpath_proxy
+        except Exception:
+            _schema['proxy'] = None
+    return _schema['proxy']
+
+
+def context_item_pass(run: Run, cases: list, groups: int) -> None:
+    """The zero-argument (context item) forms string(), string-length(), normalize-space() must be the one-argument
+    forms on fn:string(.) (F&O: "the argument defaults to the string value of the context item"), for every kind of
+    context item: non-string atomic values (integer, decimal, double, boolean, xs:untypedAtomic, xs:anyURI, string),
+    nodes of every kind (element, attribute, text, comment, processing instruction, namespace, document) and
+    schema-typed element/attribute nodes; 1.0 and 2.0+ parsers.  Three comparisons per case: zero-argument form vs
+    the real code's f(string(.)); vs the Lean spec on the known string value (where the string value is known
+    exactly: everything but doubles); and the focus supplied in different ways (item= of select / XPathContext,
+    `$v ! f()`, predicates, `for`)."""
+    import xml.etree.ElementTree as ET
+    from elementpath.datatypes import UntypedAtomic, AnyURI
+    E = env()
+    rng = run.rng
+    st = run.stats
+    pool = [c['args'][0] for c in cases if c['op'] in ('normalize', 'length') and isinstance(c['args'][0], list)]
+    xmlpool = [p for p in pool if p and all(c in (9, 10, 32) or 0x20 < c < 0xD800 or 0xE000 <= c <= 0xFFFD or c >= 0x10000
+                                           for c in p) and 13 not in p]
+    if len(pool) < 6 or len(xmlpool) < 3:
+        return
+    FUNS = (('string', None), ('string-length', 'length'), ('normalize-space', 'normalize'))
+
+    # ---- plan the items and the driver lines that give their expected results
+    plans = []
+    lines = set()
+    for _ in range(groups):
+        items = []    # (kind, python value, key for the expected string: ('num', numarg) | ('str', cps) | None)
+        for _ in range(rng.randint(2, 4)):
+            r = rng.random()
+            if r < 0.45:
+                na = gen_numarg(rng)
+                v = numarg_value(na)
+                if na[0] == 'F':
+                    items.append(('double', v, None))
+                else:
+                    items.append(({'I': 'integer', 'D': 'decimal', 'B': 'boolean'}[na[0]], v, ('num', na)))
+            elif r < 0.6:
+                t = rng.choice(pool)
+                items.append(('untypedAtomic', UntypedAtomic(s_of(t)), ('str', t)))
+            elif r < 0.72:
+                t = [c for c in rng.choice(xmlpool) if c not in (9, 10)]
+                try:
+                    items.append(('anyURI', AnyURI(s_of(t)), ('str', [ord(c) for c in str(AnyURI(s_of(t)))])))
+                except Exception:
+                    items.append(('string', s_of(t), ('str', t)))
+            else:
+                t = rng.choice(pool)
+                items.append(('string', s_of(t), ('str', t)))
+        texts = rng.sample(xmlpool, 3)
+        plans.append((items, texts))
+        for _, _, key in items:
+            if key and key[0] == 'num':
+                nl = numarg_line(key[1])
+                lines |= {f'conv|{nl}', f'conv|{nl}|length|@', f'conv|{nl}|normalize|@'}
+            elif key:
+                lines |= {f'length|{cps_line(key[1])}', f'normalize|{cps_line(key[1])}'}
+        for t in texts + [texts[0] + texts[1] + texts[2] + texts[1]]:
+            lines |= {f'length|{cps_line(t)}', f'normalize|{cps_line(t)}'}
+    lines = sorted(lines)
+    ans = dict(zip(lines, run.driver('C09', lines)))
+
+    def expected(key, fun):
+        """Lean spec result of fun on the string value denoted by key"""
+        if key is None:
+            return None
+        if key[0] == 'num':
+            nl = numarg_line(key[1])
+            line = f'conv|{nl}' if fun == 'string' else f'conv|{nl}|{dict(FUNS)[fun]}|@'
+            return ans[line].split('|')[1]
+        if fun == 'string':
+            return 'S:' + cps_line(key[1])
+        return ans[f'{dict(FUNS)[fun]}|{cps_line(key[1])}'].split('|')[1]
+
+    def ev(pidx, expr, root=None, **kw):
+        try:
+            r = E['ep'].select(E['root'] if root is None else root, expr, parser=E['parsers'][pidx], **kw)
+            if isinstance(r, list) and len(r) == 1:
+                r = r[0]
+            return canon(r)
+        except Exception as ex:
+            return err_canon(ex)
+
+    def report(kind, fun, how, expr, pidx, got, want, what, detail):
+        run.disagree(Disagreement({'op': 'context-item', 'function': fun + '()', 'context_item_kind': kind,
+                                   'context_item': detail, 'focus_given_by': how, 'expr': expr,
+                                   'parser': E['parsers'][pidx].__name__},
+                                  impl=got, model=None, spec=want, what=what,
+                                  site=('elementpath/xpath1/_xpath1_functions.py evaluate__' + fun.replace('-', '_') +
+                                        ('; elementpath/xpath2/_xpath2_constructors.py evaluate__string_type_and_function'
+                                         ' (2.0+)' if fun == 'string' else ''))))
+
+    for plan_no, (items, texts) in enumerate(plans):
+        # ---- atomic context items
+        for kind, value, key in items:
+            detail = repr(value)
+            for fun, _ in FUNS:
+                for pidx in range(4):
+                    one = ev(pidx, f'{fun}(string(.))', item=value)
+                    ways = [('select(item=)', f'{fun}()', {'item': value})]
+                    if pidx >= 1:
+                        ways.append(('predicate', f'count(($v)[{fun}() = {fun}(string(.))])', {'variables': {'v': value}}))
+                        ways.append(('for + predicate', f'for $x in ($v, $v) return ($x)[true()]/{fun}()', None))
+                    if pidx >= 2:
+                        ways.append(('simple map', f'$v ! {fun}()', {'variables': {'v': value}}))
+                    for how, expr, kw in ways:
+                        if kw is None:
+                            continue      # a path step on an atomic value is XPTY0019 by definition: not a focus form
+                        got = ev(pidx, expr, **kw)
+                        st.count(f'context-item:{kind}')
+                        st.evaluations += 1
+                        if how == 'predicate':
+                            if got != 'I:1':
+                                report(kind, fun, how, expr, pidx, got, 'I:1', 'zero-arg-vs-one-arg', detail)
+                            continue
+                        if got != one:
+                            report(kind, fun, how, expr, pidx, got, one, 'zero-arg-vs-one-arg', detail)
+                        want = expected(key, fun)
+                        if want is not None and not (kind == 'double') and got != want:
+                            report(kind, fun, how, expr, pidx, got, want, 'zero-arg-vs-F&O', detail)
+                    # a bare token evaluated with an XPathContext whose item is the value
+                    try:
+                        tok = E['parsers'][pidx]().parse(f'{fun}()')
+                        got = canon(tok.evaluate(E['ep'].XPathContext(E['root'], item=value)))
+                    except Exception as ex:
+                        got = err_canon(ex)
+                    st.evaluations += 1
+                    if got != one:
+                        report(kind, fun, 'XPathContext(item=)', f'{fun}()', pidx, got, one, 'zero-arg-vs-one-arg', detail)
+            # a mixed sequence mapped through the zero-argument form (3.0+)
+        seq = [v for _, v, _ in items]
+        for fun, _ in FUNS:
+            for pidx in (2, 3):
+                got = ev(pidx, f'$s ! {fun}()', variables={'s': seq})
+                want = ev(pidx, f'$s ! {fun}(string(.))', variables={'s': seq})
+                st.count('context-item:sequence')
+                st.evaluations += len(seq)
+                if got != want:
+                    report('sequence', fun, 'simple map over a sequence', f'$s ! {fun}()', pidx, got, want,
+                           'zero-arg-vs-one-arg', repr(seq))
+        # ---- nodes of every kind (lxml tree: comments, PIs and namespaces are kept)
+        t_el, t_at, t_cm = texts
+        if E['le'] is not None and plan_no % 2 == 0:
+            try:
+                le = E['le']
+                a = le.Element('a', nsmap={'n': 'urn:' + ''.join(ch for ch in s_of(t_at) if ch.isalnum() and ch.isascii())})
+                a.set('x', s_of(t_at))
+                a.text = s_of(t_el)
+                a.append(le.Comment(s_of(t_cm).replace('-', '_')))
+                a[-1].tail = s_of(t_at)
+                b = le.SubElement(a, 'b')
+                b.text = s_of(t_cm)
+                try:
+                    pi = le.ProcessingInstruction('p', s_of(t_el).replace('?>', '? >'))
+                    a.append(pi)
+                except Exception:
+                    pi = None
+            except Exception:
+                a = None
+            if a is not None:
+                for root, kinds in ((a, ['.', '@x', 'text()[1]', 'comment()', 'b', 'processing-instruction()', 'namespace::n']),
+                                    (a.getroottree(), ['.', 'a', 'a/@x', 'a/b/text()'])):
+                    for path in kinds:
+                        for fun, _ in FUNS:
+                            for pidx in range(4):
+                                one = ev(pidx, f'{fun}(string({path}))', root=root)
+                                if pidx == 0:
+                                    forms = [('argument', f'{fun}({path})'),
+                                             ('predicate', f'{fun}(({path})[{fun}() = {fun}(string(.))])')]
+                                else:
+                                    forms = [('path step', f'{path}/{fun}()'),
+                                             ('for', f'for $n in {path} return $n/{fun}()'),
+                                             ('predicate', f'({path})[{fun}() = {fun}(string(.))]/{fun}()')]
+                                    if pidx >= 2:
+                                        forms.append(('simple map', f'({path}) ! {fun}()'))
+                                for how, expr in forms:
+                                    got = ev(pidx, expr, root=root)
+                                    st.count('context-item:node ' + path.split('/')[-1].split('[')[0])
+                                    st.evaluations += 1
+                                    if got != one:
+                                        report('node ' + path, fun, how, expr, pidx, got, one, 'zero-arg-vs-one-arg',
+                                               'lxml tree, texts ' + repr(texts))
+        # ---- the same on ElementTree (element and document root), expected from the Lean spec as well
+        r = ET.Element('r')
+        r.set('x', s_of(t_at))
+        r.text = s_of(t_el)
+        w = ET.SubElement(r, 'w')
+        w.text = s_of(t_at)
+        w.tail = s_of(t_cm)
+        whole = t_el + t_at + t_cm
+        for root, path, key in ((r, '.', ('str', whole)), (r, '@x', ('str', t_at)), (r, 'w', ('str', t_at)),
+                                (r, 'w/text()', ('str', t_at)), (ET.ElementTree(r), '.', ('str', whole)),
+                                (ET.ElementTree(r), 'r/w', ('str', t_at))):
+            for fun, _ in FUNS:
+                lines_needed = expected(key, fun) if (fun == 'string' or f'{dict(FUNS)[fun]}|{cps_line(key[1])}' in ans) else None
+                for pidx in range(4):
+                    expr = f'{fun}({path})' if pidx == 0 else f'{path}/{fun}()'
+                    got = ev(pidx, expr, root=root)
+                    one = ev(pidx, f'{fun}(string({path}))', root=root)
+                    st.count('context-item:etree node')
+                    st.evaluations += 1
+                    if got != one:
+                        report('node ' + path, fun, 'path step', expr, pidx, got, one, 'zero-arg-vs-one-arg', repr(texts))
+                    if lines_needed is not None and got != lines_needed:
+                        report('node ' + path, fun, 'path step', expr, pidx, got, lines_needed, 'zero-arg-vs-F&O', repr(texts))
+        # ---- schema-typed nodes: the string value is the text, not the typed value
+        proxy = typed_schema()
+        if proxy is not None and plan_no % 4 == 0:
+            num = rng.choice(['1.50', ' 2.50 ', '-0.0', '007', '1E+2'][:4])
+            doc = ET.XML(f'<r n=" {num} "><d> {num} </d><d>7</d><i> 12 </i><b> true </b><s> x  y </s><f> 1e3 </f>'
+                         f'<u> http://x/y </u></r>')
+            for path in ('d[1]', 'd[2]', 'i', 'b', 's', 'f', 'u', '@n', '.'):
+                for fun, _ in FUNS:
+                    for pidx in (1, 3):
+                        kw = {'schema': proxy}
+                        one = ev(pidx, f'{fun}(string({path}))', root=doc, **kw)
+                        raw = ev(pidx, f'{fun}(string({path}))', root=doc)      # untyped: the string value is the same
+                        for how, expr in (('path step', f'{path}/{fun}()'),
+                                          ('predicate', f'({path})[{fun}() = {fun}(string(.))]/{fun}()')):
+                            got = ev(pidx, expr, root=doc, **kw)
+                            st.count('context-item:schema-typed node')
+                            st.evaluations += 1
+                            if got != one or got != raw:
+                                report('schema-typed node ' + path, fun, how, expr, pidx, got, one if got != one else raw,
+                                       'zero-arg-vs-one-arg', f'typed document, number text {num!r}')
+
 
 def correspond(run: Run) -> None:
     rng = run.rng
@@ -1419,6 +1663,7 @@ def correspond(run: Run) -> None:
     history_pass(run, cases, run.scale(400, 6000))
     function_items_pass(run, cases, run.scale(150, 2000))
     nodeset_pass(run, cases, run.scale(150, 2000))
+    context_item_pass(run, cases, run.scale(40, 700))
 
 
 def search(run: Run):
@@ -1474,7 +1719,7 @@ def _still_fails(cands: list, what: str, parser: str) -> list:
 
 
 def shrink(d: Disagreement) -> Disagreement:
-    if not isinstance(d.case, dict) or 'op' not in d.case or d.case['op'] in ('conv', 'ctoken', 'hctoken', 'law', 'function-item', 'cp2sx', 'nodeset') or 'history' in d.case:
+    if not isinstance(d.case, dict) or 'op' not in d.case or d.case['op'] in ('conv', 'ctoken', 'hctoken', 'law', 'function-item', 'cp2sx', 'nodeset', 'context-item') or 'history' in d.case:
         return d
     best = d
     import time
